@@ -403,3 +403,45 @@ func C14_Unwrap() {
 	vf.Assert(len(lines) >= 1 && lines[0] == 1, "the failing statement is located")
 	vf.Reach("unwrap")
 }
+
+// C14_Gen: the generated failing programs (gen.go: one statement per line,
+// one failing statement placed at every position of every small nesting of
+// loops, conditionals and function literals, in four variable-placement
+// contexts). Whenever a run fails, the trace must be exactly: the line of the
+// failing statement, then the line of the call of every enclosing function,
+// innermost first.
+func C14_Gen() {
+	ps := GenFailing()
+	p := ps[vf.Choice("prog", len(ps))]
+	s := tengo.NewScript([]byte(p.Src))
+	_ = s.Add("a", vf.Int64("a"))
+	_ = s.Add("b", vf.Int64("b"))
+	_ = s.Add("c", vf.Bool("c"))
+	cc, err := s.Compile()
+	if err != nil {
+		vf.Stop()
+	}
+	rerr, panicked, ptext := RunGuarded(cc)
+	vf.Assert(!panicked, "no Go panic: "+p.Name+": "+ptext)
+	if rerr == nil {
+		vf.Reach("gen-nofail")
+		return
+	}
+	msg := rerr.Error()
+	vf.Assert(contains(msg, "invalid operation: int + undefined"), "the failure is the failing statement's: "+p.Name+": "+msg)
+	files, lines := parseTrace(msg)
+	want := ""
+	for _, w := range p.WantLines {
+		want += " " + strconv.Itoa(w)
+	}
+	ok := len(lines) == len(p.WantLines)
+	if ok {
+		for k := range lines {
+			if lines[k] != p.WantLines[k] || files[k] != "(main)" {
+				ok = false
+			}
+		}
+	}
+	vf.Assert(ok, "trace lines are"+want+" (failing statement, then each active call, innermost first): "+p.Src+": "+msg)
+	vf.Reach("gen")
+}
